@@ -222,7 +222,38 @@ func stopMatches(e *env, v ref.Val) bool {
 	return false
 }
 
+// ReifyVal: the reference reifiers. "rev" reverses the children of a list or map; "box" puts the node
+// into a one-element list.
+func ReifyVal(name string, v ref.Val) ref.Val {
+	switch name {
+	case "rev":
+		switch v.K {
+		case ref.KList:
+			o := ref.List()
+			for i := len(v.L) - 1; i >= 0; i-- {
+				o.L = append(o.L, v.L[i])
+			}
+			return o
+		case ref.KMap:
+			o := ref.Map()
+			for i := len(v.M) - 1; i >= 0; i-- {
+				o.M = append(o.M, v.M[i])
+			}
+			return o
+		}
+		return v
+	case "box":
+		return ref.List(v)
+	}
+	panic("harness: unknown reifier " + name)
+}
+
 func (w *refWalker) walk(n ref.Val, acts []active, path string) bool {
+	if len(acts) == 1 && acts[0].s.Op == "~" {
+		// the clause was handed to this node directly: reify, go on with its next selector
+		n = ReifyVal(acts[0].s.As, n)
+		acts = resolve(acts[0].s.Next, acts[0].e, nil)
+	}
 	if m, ok := matchOf(acts, n); ok {
 		w.out.Visits = append(w.out.Visits, Visit{Path: path, Reason: 'm', Node: m})
 	} else {
